@@ -259,3 +259,10 @@ M('c01-literal-segment-unescaped', 'C01', 'R9', 'falcon/routing/compiled.py',
 M('c01-param-name-from-raw-segment', 'C01', 'R9', 'falcon/routing/compiled.py',
   "                        params_stack.append(_CxSetParamFromPath(field_name, level))",
   "                        params_stack.append(_CxSetParamFromPath(node.raw_segment[1:-1], level))")
+
+M('c01-finder-kept-when-compile-false', 'C01', 'R10', 'falcon/routing/compiled.py',
+  """        else:
+            self._find = self._compile_and_find
+""", """        elif not self._roots:
+            self._find = self._compile_and_find
+""")
